@@ -17,11 +17,13 @@ pub struct EntryReport {
     pub vs: ValueStats,
     pub problem: Option<String>,
     pub dstats: DirectedStats,
+    /// informational only (filled in by the worker loop)
+    pub wall_ms: u64,
 }
 
 impl EntryReport {
     pub fn new(label: String) -> Self {
-        EntryReport { label, evals: 0, distinct: BTreeSet::new(), classes: BTreeMap::new(), fails: vec![], known_hits: BTreeMap::new(), samples: vec![], vs: ValueStats::default(), problem: None, dstats: DirectedStats::default() }
+        EntryReport { label, evals: 0, distinct: BTreeSet::new(), classes: BTreeMap::new(), fails: vec![], known_hits: BTreeMap::new(), samples: vec![], vs: ValueStats::default(), problem: None, dstats: DirectedStats::default(), wall_ms: 0 }
     }
     pub fn count(&mut self, k: &str) {
         *self.classes.entry(k.to_string()).or_insert(0) += 1;
@@ -32,7 +34,7 @@ impl EntryReport {
             "classes": self.classes, "fails": self.fails.iter().map(|(a, b, c)| json!([a, b, c])).collect::<Vec<_>>(),
             "known_hits": self.known_hits, "samples": self.samples,
             "vs": [self.vs.checked, self.vs.unlocated, self.vs.skipped_kinds], "problem": self.problem,
-            "dstats": [self.dstats.sites, self.dstats.runs, self.dstats.not_canonical, self.dstats.truncated as usize],
+            "dstats": [self.dstats.sites, self.dstats.runs, self.dstats.not_canonical, self.dstats.truncated as usize, self.dstats.dropped_large],
         })
     }
     pub fn from_json(v: &Value) -> EntryReport {
@@ -45,7 +47,8 @@ impl EntryReport {
         r.samples = v["samples"].as_array().cloned().unwrap_or_default();
         r.vs = ValueStats { checked: v["vs"][0].as_u64().unwrap_or(0) as u32, unlocated: v["vs"][1].as_u64().unwrap_or(0) as u32, skipped_kinds: v["vs"][2].as_u64().unwrap_or(0) as u32 };
         r.problem = v["problem"].as_str().map(|s| s.to_string());
-        r.dstats = DirectedStats { sites: v["dstats"][0].as_u64().unwrap_or(0) as usize, runs: v["dstats"][1].as_u64().unwrap_or(0) as usize, not_canonical: v["dstats"][2].as_u64().unwrap_or(0) as usize, truncated: v["dstats"][3].as_u64().unwrap_or(0) != 0 };
+        r.wall_ms = v["wall_ms"].as_u64().unwrap_or(0);
+        r.dstats = DirectedStats { sites: v["dstats"][0].as_u64().unwrap_or(0) as usize, runs: v["dstats"][1].as_u64().unwrap_or(0) as usize, not_canonical: v["dstats"][2].as_u64().unwrap_or(0) as usize, truncated: v["dstats"][3].as_u64().unwrap_or(0) != 0, dropped_large: v["dstats"][4].as_u64().unwrap_or(0) as usize };
         r
     }
 }
@@ -86,6 +89,11 @@ pub fn merge(c: &mut Check, reports: Vec<EntryReport>, max_samples: usize) {
     let mut problems = Vec::new();
     let (mut checked, mut unlocated, mut skipped) = (0u64, 0u64, 0u64);
     let (mut sites, mut runs, mut truncated, mut nc) = (0usize, 0usize, 0usize, 0usize);
+    let mut dropped_large = 0usize;
+    let mut slowest: Vec<(u64, String)> = reports.iter().map(|r| (r.wall_ms, r.label.clone())).collect();
+    slowest.sort_by(|a, b| b.cmp(a));
+    slowest.truncate(5);
+    c.extra.insert("slowest_entries_ms".into(), json!(slowest));
     let n = reports.len().max(1);
     for (i, r) in reports.into_iter().enumerate() {
         c.evals(r.evals);
@@ -117,6 +125,7 @@ pub fn merge(c: &mut Check, reports: Vec<EntryReport>, max_samples: usize) {
         runs += r.dstats.runs;
         nc += r.dstats.not_canonical;
         truncated += r.dstats.truncated as usize;
+        dropped_large += r.dstats.dropped_large;
         if let Some(p) = r.problem {
             problems.push(format!("{}: {}", r.label, p));
         }
@@ -128,6 +137,8 @@ pub fn merge(c: &mut Check, reports: Vec<EntryReport>, max_samples: usize) {
     c.extra.insert("directed_runs".into(), json!(runs));
     c.extra.insert("directed_not_canonical_discarded".into(), json!(nc));
     c.extra.insert("entries_with_truncated_directed_enumeration".into(), json!(truncated));
+    c.extra.insert("large_cases_not_held_past_the_retention_budget".into(), json!(dropped_large));
+    c.extra.insert("worker_deaths_not_reproduced_with_the_entry_alone".into(), json!(crate::iso::NOT_REPRODUCED_ALONE.load(std::sync::atomic::Ordering::Relaxed)));
     c.extra.insert("entries_the_model_cannot_encode".into(), json!(problems));
 }
 
